@@ -123,6 +123,29 @@ func scaleTreeGC(c *Case, res map[string]any, fail func(string, ...any)) {
 		for i := 0; i < n/10; i++ { // overwrites: the old value must go
 			put(rng.Intn(n))
 		}
+		reads := func() {
+			// look-ups and finished ranges must leave nothing behind that keeps removed entries alive
+			// (a cached extreme leaf, a cursor kept by the map, ...)
+			m.First()
+			m.Last()
+			probe.k = rng.Intn(n + 1)
+			m.Get(probe)
+			m.Contains(probe)
+			it := m.Range(tree.Unbounded[*gcBox](), tree.Unbounded[*gcBox]())
+			for j := 0; j < 3; j++ {
+				it.Next()
+			}
+			rit := m.RangeReverse(tree.Unbounded[*gcBox](), tree.Unbounded[*gcBox]())
+			for {
+				if _, ok := rit.Next(); !ok {
+					break
+				}
+			}
+		}
+		doReads := c.Cfg["reads"] == true
+		if doReads {
+			reads()
+		}
 		var victims []int
 		switch drain {
 		case "top":
@@ -146,6 +169,9 @@ func scaleTreeGC(c *Case, res map[string]any, fail func(string, ...any)) {
 		}
 		for i, k := range victims {
 			del(k)
+			if doReads && i%97 == 5 {
+				reads()
+			}
 			if i%7 == 3 && c.Cfg["refill"] == true {
 				put(n + i)
 				del(n + i)
